@@ -227,7 +227,7 @@ func run(c *vh.Ctx) {
 					}
 					lens := []int{15, 0, 1, 32, 7, 24, 3}
 					scs = append(scs, scen{kind: "pos", cp: cp, mapKind: mk, wantH2: (mk+ci+pi+round)%3 != 0, alpsLen: lens[(mk+ci+round)%len(lens)],
-						toCoq: mapKinds[mk].name != "long" || (pi+ci)%4 == 0})
+						toCoq: (mapKinds[mk].name != "long" && (c.Tier != "quick" || (mk+pi+ci)%4 != 3)) || (mapKinds[mk].name == "long" && (pi+ci)%4 == 0)})
 				}
 			}
 			scs = append(scs,
@@ -412,7 +412,7 @@ func one(c *vh.Ctx, pki *hs.PKI, p parrot, s scen, rb func(int) []byte) {
 		c.Case("run13", fmt.Sprintf("(CRun %s %s %s %s %d %s %s %s)", strsTerm(r.View.ALPN), pairsTerm(settings), vh.Bytes(serverEE),
 			vh.Bool(completed), hs.ClientAlert(r), vh.Bytes(peer), vh.Str(proto), optBytes(cee)), key, nontrivial, input)
 		liveN++
-		if liveN%3 == 0 {
+		if liveN%5 == 0 {
 			eeCase(c, serverEE, "live/"+key)
 		}
 		if cee != nil && liveN%3 == 1 {
